@@ -13,7 +13,8 @@ RULE = ('corpus, curated and decorated molecules accepted by both toolkits, norm
         'SMILES of to_rdkit(m) vs of the source text; from_rdkit(MolFromSmiles(text)) vs smiles(text) atom by atom; '
         'from_rdkit(to_rdkit(m)) vs m atom by atom incl. coordinates and parity descriptors; RDKit molecules with hydrogens as atoms '
         '(AddHs, deuterium on a stereocentre) in random spellings so that the hydrogen stands at every neighbour position; 22 '
-        'complexes with coordinate bonds under renumbering (donor direction, per-atom comparison, way back); non-trivial = molecule with a '
+        'complexes with coordinate bonds under renumbering (donor direction, per-atom comparison, way back); 20 molecules with a radical and an '
+        'isotope label on one atom; 20 molecules with an S / P / N+ / Si centre next to carbon centres in random RDKit atom orders (carbon labels compared); non-trivial = molecule with a '
         'stereo label, charge, isotope or aromatic hetero atom, distinct by (canonical string, form)')
 ASSUMPTIONS = ['CachedMethods compatibility shim', 'RDKit canonical isomeric SMILES decides equality on the RDKit side; '
                'pseudo-asymmetric centres are compared by atom identity only',
@@ -23,11 +24,13 @@ CONFIG = {
               'floors': {'evaluations': 5000, 'distinct_nontrivial': 1200, 'to_rdkit.compared': 2500, 'from_rdkit.compared': 700,
                          'roundtrip.compared': 2500, 'stereo.labels-roundtripped': 1500, 'from_rdkit.explicit-h.all-hydrogens': 120,
                          'from_rdkit.explicit-h.deuterium-on-centre': 120, 'from_rdkit.explicit-h.position-0': 10,
-                         'from_rdkit.explicit-h.position-2': 60, 'dative.bonds-checked': 60, 'from_rdkit.dependent-centres': 40}},
+                         'from_rdkit.explicit-h.position-2': 60, 'dative.bonds-checked': 60, 'from_rdkit.dependent-centres': 40,
+                         'from_rdkit.hetero-centres': 120, 'radical-with-isotope.molecules': 18}},
     'thorough': {'shards': 16, 'budget_s': 1500, 'n_corpus': 4200, 'k_renum': 16,
                  'floors': {'evaluations': 80000, 'distinct_nontrivial': 8000, 'to_rdkit.compared': 30000, 'from_rdkit.compared': 4000,
                             'roundtrip.compared': 30000, 'stereo.labels-roundtripped': 15000, 'from_rdkit.explicit-h.all-hydrogens': 600,
-                            'from_rdkit.explicit-h.deuterium-on-centre': 600, 'dative.bonds-checked': 150, 'from_rdkit.dependent-centres': 40}},
+                            'from_rdkit.explicit-h.deuterium-on-centre': 600, 'dative.bonds-checked': 150, 'from_rdkit.dependent-centres': 40,
+                            'from_rdkit.hetero-centres': 600, 'radical-with-isotope.molecules': 18}},
 }
 
 
@@ -362,6 +365,80 @@ def dative(ctx, rng, k_renum):
                 ctx.violation('roundtrip-differs/dative', '%s: %s' % (text, T.diff_records(r1, r2)[:3]), w)
 
 
+RADICAL_ISOTOPE = ['[13CH3]', 'C[13CH2]', '[18O]C', '[15NH]C', 'C[13CH]C', '[13C](C)(C)C', '[14CH2]c1ccccc1', 'CC[17O]', '[2H]C([2H])([2H])[13CH2]', 'C[13CH2].[13CH4]',
+                   'C[15N]C', '[13CH2]C=C', 'O=[13C]C', '[18O]c1ccccc1', 'C[34S]', '[13CH3].CC', 'C[CH2].[13CH4]', 'C[C@H](N)[13CH2]', '[11CH2]CO', '[13CH](C)(C)C(C)(C)C']
+HETERO_CENTRES = ['C[S@](=O)CC[C@H](N)C(O)=O', 'C[S@@](=O)CC[C@@H](N)C(O)=O', 'C[C@H](N)CC[S@](C)=O', 'CC[P@](=O)(OC)O[C@H](C)CC', 'C[C@H](CC)O[P@@](=O)(C)OC',
+                  'C[N@+](CC)(CCC)C[C@H](O)C', 'C[C@H](O)C[N@@+](C)(CC)CCC', 'C[Si@](CC)(F)O[C@@H](C)CC', 'C[C@@H](CC)O[Si@@](C)(CC)F', 'O=[S@@](c1ccccc1)C[C@H](C)O',
+                  'C[C@@H](C(=O)OC(C)C)N[P@](=O)(OC[C@@H]1[C@H]([C@@]([C@@H](O1)N2C=CC(=O)NC2=O)(C)F)O)OC3=CC=CC=C3', 'C[C@H](F)[S@](=O)C[C@@H](C)Cl',
+                  '[O-][S@+](C)C[C@H](N)C', 'C[C@H](O)[P@](C)(=O)c1ccccc1', 'C[S@](=O)(=N)C[C@H](C)O', 'C[C@H](Cl)CC[S@@](=O)C[C@H](C)Br', 'F/C=C/[S@](=O)C[C@H](C)O',
+                  'C[C@H]1CC[S@](=O)C1', 'C[C@@H]1CC[S@](=O)C[C@H]1O', 'CC[N@+]1(C)CC[C@H](O)C1']
+
+
+def hetero_centres(ctx, rng, k):
+    """RDKit tags S, P, N+ and Si centres that the library does not model: the carbon centres and double bonds of the same
+    molecule must arrive all the same, in every atom order RDKit may hold them in"""
+    from rdkit import Chem
+    for i, text0 in enumerate(HETERO_CENTRES):
+        if not ctx.mine(i):
+            continue
+        rd0 = Chem.MolFromSmiles(text0)
+        if rd0 is None:
+            continue
+        texts = [text0] + [Chem.MolToSmiles(rd0, doRandom=True, canonical=False) for _ in range(k)]
+        for text in texts:
+            rd = Chem.MolFromSmiles(text)
+            try:
+                ref = smiles(text)
+            except Exception:
+                ctx.count('hetero-centres.text-not-read')
+                continue
+            if rd is None or len(ref) != rd.GetNumAtoms():
+                continue
+            w = {'smiles': text, 'form': 'hetero-centres'}
+            ctx.evaluations += 1
+            try:
+                got = from_rdkit_molecule(rd)
+            except Exception as e:
+                ctx.violation('from_rdkit-raises/%s' % type(e).__name__, '%s: %r' % (text, e), w)
+                continue
+            carbon = lambda mol, rec: {key: v for key, v in rec['stereo'].items() if all(mol._atoms[x].atomic_number == 6 for x in key[1:] if isinstance(x, int))}
+            r1, r2 = T.mol_record(ref), T.mol_record(got)
+            c1, c2 = carbon(ref, r1), carbon(got, r2)
+            if not c1:
+                ctx.count('hetero-centres.no-carbon-label-in-reference')
+                continue
+            ctx.count('from_rdkit.hetero-centres')
+            ctx.counters['from_rdkit.hetero-centres.carbon-labels'] += len(c1)
+            ctx.nontrivial.add('hetero:' + text)
+            if c1 != c2:
+                ctx.violation('from_rdkit-stereo-differs/next-to-a-centre-of-another-element', '%s: carbon labels as read from the text %s, through RDKit %s'
+                              % (text, sorted(c1.items())[:6], sorted(c2.items())[:6]), w)
+
+
+def radical_isotope(ctx, rng, k):
+    from rdkit import Chem
+    for i, s in enumerate(RADICAL_ISOTOPE):
+        if not ctx.mine(i):
+            continue
+        rd0 = Chem.MolFromSmiles(s)
+        try:
+            m = smiles(s)
+        except Exception:
+            continue
+        if rd0 is None:
+            continue
+        ctx.count('radical-with-isotope.molecules')
+        ref = Chem.MolToSmiles(rd0)
+        check(ctx, m, s, ref, rng, 'radical-with-isotope')
+        for _ in range(k):
+            try:
+                new, mp, bad = T.redescribe(m, rng)
+            except Exception:
+                break
+            if not bad:
+                check(ctx, new, s, ref, rng, 'radical-with-isotope/renumbered')
+
+
 def worker(ctx):
     cfg = CONFIG[ctx.tier]
     rng = ctx.rng
@@ -370,6 +447,8 @@ def worker(ctx):
     from rdkit.Chem import AllChem
     RDLogger.DisableLog('rdApp.*')
     dative(ctx, rng, cfg['k_renum'])
+    hetero_centres(ctx, rng, cfg['k_renum'] * 4)
+    radical_isotope(ctx, rng, cfg['k_renum'])
     if ctx.shard == 1 % ctx.nshards:
         dependent_centres(ctx, rng)
     c = T.corpus()
